@@ -14,7 +14,7 @@ gvars == <<pvars, inp>>
 GInit == \E c \in Cfgs, p0 \in {0, 77}, a0 \in AvgClasses :
           /\ CInit(c, p0, IF c.hasMode THEN 2 ELSE 1, a0)
           /\ touched = FALSE
-          /\ zeros = 0 /\ H4Init
+          /\ zeros = 0 /\ spin = 0 /\ H4Init
           /\ inp = <<[a |-> "Init", kind |-> c.kind, neverStop |-> c.neverStop, hasRpm |-> c.hasRpm,
                       mn |-> c.lim[1], mx |-> c.lim[2], mapid |-> c.mapid,
                       pwm |-> p0, mode |-> IF c.hasMode THEN 2 ELSE 1, avg |-> a0.num]>>
@@ -22,7 +22,7 @@ GInit == \E c \in Cfgs, p0 \in {0, 77}, a0 \in AvgClasses :
 GNext ==
   /\ Len(inp) < Depth
   /\ \/ \E lo \in LoSet : CycleExact(0, lo, loop) /\ HCycle /\ H4Keep /\ inp' = Append(inp, [a |-> "Cycle", lo |-> lo])
-     \/ \E a \in AvgClasses : MeasureAbs(a) /\ touched' = touched /\ zeros' = 0 /\ H4Keep /\ inp' = Append(inp, [a |-> "Avg", v |-> a.num])
+     \/ \E a \in AvgClasses : MeasureAbs(a) /\ touched' = touched /\ zeros' = 0 /\ spin' = 0 /\ H4Keep /\ inp' = Append(inp, [a |-> "Avg", v |-> a.num])
      \/ \E pk \in PokeSet : status = "Regulating" /\ ThirdParty(pk[1], pk[2]) /\ HPoke(pk[2]) /\ H4Keep
                             /\ inp' = Append(inp, [a |-> "Poke", mode |-> pk[1], pwm |-> pk[2]])
 
